@@ -93,10 +93,11 @@ func (b bsrc) ReadByte() (byte, error) {
 }
 
 func newSrc(pieces [][]byte, tg bool, term error) *src {
+	// the pieces alias the caller's input: Read only copies out of them and re-slices the headers kept here
 	cp := make([][]byte, 0, len(pieces))
 	for _, p := range pieces {
 		if len(p) > 0 {
-			cp = append(cp, append([]byte{}, p...))
+			cp = append(cp, p)
 		}
 	}
 	return &src{pieces: cp, tg: tg, term: term}
@@ -253,8 +254,8 @@ const (
 )
 
 var (
-	limitRF   = 1000 // every-offset runs cost O(n^2) on both sides: 5000 in the thorough tier
-	limitSize = 1200 // generated field values / documents above this are skipped: 4000 in the thorough tier
+	limitRF   = 1000 // every-offset runs cost O(n^2) on both sides: 2500 in the thorough tier
+	limitSize = 1200 // generated field values / documents above this are skipped: 2500 in the thorough tier
 )
 
 var rfCombos = []struct {
@@ -1207,6 +1208,42 @@ func nbtDocs(o *hx.Out) {
 				run:  func(w io.Writer) error { _, err := pk.NBT(goval).WriteTo(w); return err }})
 		}
 	}
+	// a Marshaler at the ROOT: its single Write is the last call of the encoder, so a dropped error would be final
+	for i := 0; i < o.N(12, 6); i++ {
+		budget := 30
+		t := c01x.Gen(r, 0, 3, &budget, false)
+		file := r.Bool()
+		name := c01x.GenKey(r)
+		var pb bytes.Buffer
+		t.Payload(&pb)
+		var goval any = nbt.RawMessage{Type: t.Kind, Data: pb.Bytes()}
+		mark := " R"
+		if i%2 == 1 {
+			dv := new(dynbt.Value)
+			dd := nbt.NewDecoder(bytes.NewReader(t.Doc(false, nil)))
+			dd.NetworkFormat(true)
+			if _, err := dd.Decode(dv); err != nil {
+				panic(err)
+			}
+			goval, mark = dv, " Y"
+		}
+		checkWriter(o, "w.nbt.marshaler", encoder{name: "nbt",
+			spec: func(image []byte) string {
+				pt, nm, rest, err := c01x.ParseDoc(image, file)
+				if err != nil || len(rest) != 0 {
+					o.Fail("C09.writer.nbt", "the encoder's output is not a well-formed document: %s", clip(hx.Hex(image)))
+					return ""
+				}
+				var tok strings.Builder
+				pt.Tokens(&tok)
+				return fmt.Sprintf("nbt %s %s%s%s", fmtName(file), hx.Hex(nm), mark, tok.String())
+			},
+			run: func(w io.Writer) error {
+				enc := nbt.NewEncoder(w)
+				enc.NetworkFormat(!file)
+				return enc.Encode(goval, string(name))
+			}})
+	}
 	// pk.NBT(nil): a lone TAG_End
 	checkWriter(o, "w.nbtfield", encoder{name: "nbtfield", spec: func([]byte) string { return "raw 00" },
 		run: func(w io.Writer) error { _, err := pk.NBT(nil).WriteTo(w); return err }})
@@ -1458,7 +1495,7 @@ func main() {
 	o := hx.Open()
 	defer o.Close()
 	if o.Thorough() {
-		limitRF, limitSize = 5000, 4000
+		limitRF, limitSize = 2500, 2500
 	}
 	readByteShapes(o)
 	varints(o)
